@@ -12,6 +12,7 @@ func register(c *PropConfig) { propConfigs[c.ID] = c }
 func init() {
 	register(&PropConfig{
 		ID:       "C14",
+		Probes:   []string{"runtime.getWatchedStrings#probe"},
 		Replay:   replayC14,
 		Level:    "other",
 		Also:     "C10",
@@ -26,6 +27,7 @@ func init() {
 	})
 	register(&PropConfig{
 		ID:       "C06",
+		Probes:   []string{"parser.TemplateFileParser.Parse#probe"},
 		Replay:   replayC06,
 		Level:    "other",
 		Packages: []string{"./parser/v2", "./parser/v2/goexpression"},
@@ -36,6 +38,7 @@ func init() {
 	})
 	register(&PropConfig{
 		ID:       "C20",
+		Probes:   []string{"proxy.Handler.modifyResponse#ensures.1.probe", "proxy.Handler.modifyResponse#ensures.3.probe", "proxy.Handler.modifyResponse#ensures.5.probe", "proxy.roundTripper.setShouldSkipResponseModificationHeader#probe"},
 		Replay:   replayC20,
 		Level:    "other",
 		Packages: []string{"./cmd/templ/generatecmd/proxy"},
@@ -43,6 +46,7 @@ func init() {
 	})
 	register(&PropConfig{
 		ID:       "C16",
+		Probes:   []string{"runtime.cacheStrings#probe", "generator.RangeWriter.closeLiteral#probe"},
 		Replay:   replayC16,
 		Packages: []string{"./parser/v2", "./generator", "./runtime"},
 		Assume: []string{
@@ -54,6 +58,7 @@ func init() {
 	})
 	register(&PropConfig{
 		ID:       "C07",
+		Probes:   []string{"parser.SourceMap.Add#probe", "parser.SourceMap.AddSymbolRange#probe"},
 		Replay:   replayC07,
 		Packages: []string{"./parser/v2", "./generator"},
 		Assume: []string{
@@ -64,6 +69,7 @@ func init() {
 	})
 	register(&PropConfig{
 		ID:       "C05",
+		Probes:   []string{"safehtml.SanitizeCSS#probe"},
 		Replay:   replayC05,
 		Packages: []string{"./safehtml", "./runtime", "."},
 		Assume: []string{
@@ -73,6 +79,7 @@ func init() {
 	})
 	register(&PropConfig{
 		ID:         "C12",
+		Probes:     []string{"templ.renderCSSItemsToBuilder#ensures.C12-1.probe", "templ.RenderScriptItems#probe", "templ.CSSMiddleware.ServeHTTP#probe"},
 		Replay:     replayC12,
 		Packages:   []string{"."},
 		Corpus:     true,
@@ -87,6 +94,7 @@ func init() {
 	})
 	register(&PropConfig{
 		ID:       "C01",
+		Probes:   []string{"templ.RenderAttributes#probe"},
 		Replay:   replayC01,
 		Packages: []string{"."},
 		Corpus:   true,
@@ -99,7 +107,8 @@ func init() {
 		},
 	})
 	register(&PropConfig{
-		ID: "C13",
+		ID:     "C13",
+		Probes: []string{"templ.ClearChildren#probe"},
 		Replay: func(r *Run, o *Obligation) *ReplayResult {
 			// the oracle prints one REPLAY-CONFIRMED line per corpus shape that renders wrongly; an
 			// obligation is confirmed by the line of the template it was generated for
@@ -168,6 +177,7 @@ func init() {
 	})
 	register(&PropConfig{
 		ID:       "C10",
+		Probes:   []string{"runtime.Buffer.WriteString#probe"},
 		Replay:   replayC10,
 		Packages: []string{"./runtime", "."},
 		Corpus:   true,
@@ -180,6 +190,7 @@ func init() {
 	})
 	register(&PropConfig{
 		ID:       "C18",
+		Probes:   []string{"jsonrpc2.stream.Write#probe"},
 		Replay:   replayC18,
 		Level:    "other",
 		Packages: []string{"./lsp/jsonrpc2"},
@@ -190,6 +201,7 @@ func init() {
 	})
 	register(&PropConfig{
 		ID:       "C11",
+		Probes:   []string{"templ.ComponentHandler.ServeHTTPBuffered#probe"},
 		Replay:   replayC11,
 		Packages: []string{"."},
 		Assume: []string{
@@ -199,6 +211,7 @@ func init() {
 	})
 	register(&PropConfig{
 		ID:       "C03",
+		Probes:   []string{"runtime.replace#probe", "templ.SafeScriptInline#probe"},
 		Replay:   replayC03,
 		Packages: []string{"./runtime", "."},
 		Corpus:   true,
@@ -212,6 +225,7 @@ func init() {
 	})
 	register(&PropConfig{
 		ID:         "C04",
+		Probes:     []string{"templ.URL#probe", "generated.href#gate.probe"},
 		Replay:     replayC04,
 		Packages:   []string{"."},
 		Corpus:     true,
@@ -224,6 +238,7 @@ func init() {
 	})
 	register(&PropConfig{
 		ID:       "C17",
+		Probes:   []string{"proxy.Document.Apply#probe"},
 		Packages: []string{"./cmd/templ/lspcmd/proxy"},
 		Assume: []string{
 			"LSP Character offsets are byte offsets into the line (the representation templ uses); UTF-16 code-unit positions are outside the claim",
